@@ -222,3 +222,58 @@ pub fn asserts(x: u8) -> u8 {
         _ => x,
     }
 }
+
+// ---- helpers that are NOT whitelisted (`inl_*`): their calls are inlined by rs2lean ----
+
+const INL_BIAS: u8 = 3 + 4;
+
+fn inl_clamp(x: u8, hi: u8) -> u8 {
+    if x > hi {
+        return hi;
+    }
+    x
+}
+
+fn inl_pair(a: u8, b: u8) -> (u8, u8) {
+    // (may overflow: a panic inside an inlined body)
+    (a + b, inl_clamp(b, 9))
+}
+
+fn inl_half(x: u32) -> SResult<u32> {
+    if x % 2 == 1 {
+        return Err(SError::Odd);
+    }
+    Ok(x / 2)
+}
+
+impl Shape {
+    fn inl_len(self, extra: u8) -> u8 {
+        match self {
+            Shape::Seg(a, b) if b >= a => return b - a + extra,
+            Shape::Seg(a, b) => a - b + extra,
+            _ => extra,
+        }
+    }
+}
+
+pub fn use_inline(a: u8, b: u8) -> u8 {
+    // early return of the callee in a NON-tail position, arguments with effects, nesting
+    let c = inl_clamp(a / b, 10) + INL_BIAS;
+    let (s, t) = inl_pair(c, b);
+    let u = inl_clamp(inl_clamp(s, 200), t + 100);
+    if u > 150 {
+        return 1;
+    }
+    u ^ t
+}
+
+pub fn use_inline_method(k: u8) -> u8 {
+    let s = mk_shape(k);
+    s.inl_len(k) + Shape::inl_len(Shape::Dot, 1)
+}
+
+pub fn use_inline_res(x: u32) -> SResult<u32> {
+    let h = inl_half(x)?;
+    let q = inl_half(h + 2)?;
+    Ok(q + u32::from(INL_BIAS))
+}
